@@ -23,6 +23,72 @@ type GenWorld struct {
 	UsesStd []string // names of std files imported ("strings", "os")
 	Hostile bool     // cycles, missing imports, … (C13 only)
 	Decoys  []string // files nobody imports
+	Pub     map[string][]FuncSig // public functions per file (mount-relative path)
+	Edges   map[string][]string  // import edges between local files
+	StdOf   map[string][]string  // std libraries imported per file
+}
+
+// ClosureOf returns rel plus everything it transitively imports (sorted), and the std libraries used.
+func (w *GenWorld) ClosureOf(rel string) ([]string, []string) {
+	seen := map[string]bool{}
+	std := map[string]bool{}
+	var walk func(string)
+	walk = func(f string) {
+		if seen[f] {
+			return
+		}
+		seen[f] = true
+		for _, s := range w.StdOf[f] {
+			std[s] = true
+		}
+		for _, t := range w.Edges[f] {
+			walk(t)
+		}
+	}
+	walk(rel)
+	out := []string{}
+	for f := range seen {
+		out = append(out, f)
+	}
+	sort.Strings(out)
+	stds := []string{}
+	for s := range std {
+		stds = append(stds, s)
+	}
+	sort.Strings(stds)
+	return out, stds
+}
+
+// AddMain generates another main program that imports a subset of the
+// existing library files of the world.
+func AddMain(r *Rng, w *GenWorld, name string, stdPct int) {
+	libs := []string{}
+	for _, f := range w.Files {
+		if f.Rel != w.Main && len(w.Pub[f.Rel]) > 0 {
+			libs = append(libs, f.Rel)
+		}
+	}
+	imps := []ModuleRef{}
+	for i, l := range libs {
+		if r.Chance(55) {
+			alias := fmt.Sprintf("q%d", i)
+			imps = append(imps, ModuleRef{Alias: alias, Name: alias, Path: relImport(name, l), Funcs: w.Pub[l]})
+			w.Edges[name] = append(w.Edges[name], l)
+		}
+	}
+	if r.Chance(stdPct) {
+		imps = append(imps, ModuleRef{Alias: "", Name: "strings", Path: "strings", Funcs: StdStrings})
+		w.StdOf[name] = append(w.StdOf[name], "strings")
+	}
+	f := RandomFeat(r)
+	f.MaxTop = min(f.MaxTop, 5)
+	src, _ := GenProgram(r.Sub(), f, imps, "_"+strings.Map(func(c rune) rune {
+		if c >= 'a' && c <= 'z' || c >= '0' && c <= '9' {
+			return c
+		}
+		return -1
+	}, name)+"_")
+	w.Set(name, []byte(src))
 }
 
 func (w *GenWorld) Get(rel string) []byte {
@@ -82,6 +148,7 @@ func NewWorld(r *Rng, o WorldOpts) *GenWorld {
 		names[0] = r.Pick([]string{"app/main.tsh", "prog.tsh", "my prog.tsh", "a.b.tsh", "noext"})
 	}
 	w.Main = names[0]
+	w.Pub, w.Edges, w.StdOf = map[string][]FuncSig{}, map[string][]string{}, map[string][]string{}
 	// edges: file i imports a subset of files j > i
 	edges := make([][]int, len(names))
 	shape := "single"
@@ -168,6 +235,11 @@ func NewWorld(r *Rng, o WorldOpts) *GenWorld {
 			src, pub[i] = GenProgram(r.Sub(), f, imps, fmt.Sprintf("_%d_", i))
 		}
 		w.Files = append(w.Files, WFile{names[i], []byte(src)})
+		w.Pub[names[i]] = pub[i]
+		for _, j := range edges[i] {
+			w.Edges[names[i]] = append(w.Edges[names[i]], names[j])
+		}
+		w.StdOf[names[i]] = stdOf[i]
 	}
 	// closure
 	seen := map[int]bool{}
